@@ -160,11 +160,29 @@ theorem pop_cons {c : Cfg} {s : St} (now k : Nat) (h : Cons c s) : Cons c (pop c
     | exact popFair_cons (by simp [Kind.isFlow, hk]) _ _ h
     | exact popWfq_cons (by simp [Kind.isFlow, hk]) _ _ h
 
+theorem filter_length_add (p : Ent → Bool) (l : List Ent) :
+    (l.filter p).length + (l.length - (l.filter p).length) = l.length := by
+  have := List.length_filter_le p l; omega
+
+/-- `purge_expired` keeps the books balanced: what leaves the heap is counted as expired -/
+theorem purge_cons {c : Cfg} {s : St} (now : Nat) (h : Cons c s) : Cons c (purge c s now).1 := by
+  unfold purge
+  cases hk : c.kind <;> simp only <;> try exact h
+  obtain ⟨h1, h2⟩ := h
+  have hq : c.kind.isFlow = false := by simp [Kind.isFlow, hk]
+  rw [len_q hq] at h1
+  refine ⟨?_, h2⟩
+  rw [len_q hq]
+  have := filter_length_add (isLive now) s.q
+  simp only at h1 ⊢; omega
+
 theorem step_cons {c : Cfg} {s : St} (o : Op) (h : Cons c s) : Cons c (step c s o).1 := by
   cases o with
   | push it now coin rd => exact push_cons it coin rd h
   | pop now k => exact pop_cons now k h
   | peek now => exact h
+  | purge now => exact purge_cons now h
+  | query now f => exact h
 
 theorem finalSt_cons (c : Cfg) : ∀ (ops : List Op) (s : St), Cons c s → Cons c (finalSt c s ops)
   | [], _, h => h
